@@ -61,6 +61,18 @@ func selectWork(e *Engine, props []string, only string) []*FuncResult {
 	done := map[string]bool{}
 	for _, key := range e.ctOrder {
 		ct := e.contracts[key]
+		if ct.Assumed && len(ct.Callsites) > 0 {
+			// an assumed contract may still carry call-site conditions: those are proved on
+			// the real body (no safety obligations, postconditions stay assumed)
+			cc := *ct
+			cc.Assumed = false
+			cc.Ensures = nil
+			cc.Requires = append(append([]Clause{}, ct.Requires...), ct.BodyReq...)
+			cc.NoSafety = true
+			cc.Modifies = []string{"*"}
+			cc.HasMod = true
+			ct = &cc
+		}
 		if ct.Assumed || ct.Inline || ct.Summary {
 			continue
 		}
